@@ -85,7 +85,7 @@ def add_filter(component, patterns, max_match=MAX_MATCH):
         return a if b is None else b if a is None else max(a, b)
 
     def max_matchs(da, db):
-        return dict((k, none_max(da.get(k), db.get(k))) for k in set(da.keys()).union(db.keys()))
+        return dict((k, none_max(da.get(k), db.get(k))) for k in sorted(set(da.keys()).union(db.keys())))
 
     def inner(comp, patterns):
         # A registration can change the filters in force for any component it flows to,
